@@ -566,7 +566,24 @@ pub struct Runner {
     pub triage: bool,
     /// child of a triage run: judge only this tape in this stage, in-process
     pub replay_tape: Option<(String, Vec<u32>)>,
+    /// cold-start child: run only the first cases of one stage, in this fresh process, one after the other on the main thread
+    pub cold_child: Option<ColdChild>,
+    /// cold-start runs enabled (env VERIF_COLD=0 turns them off)
+    pub cold: bool,
 }
+
+/// What a cold-start child process runs: the first `count` cases of stage `stage` drawn from the stream number `index`;
+/// `keep` (when given) lists the positions that are actually judged (history minimisation, replay).
+#[derive(Clone, Debug)]
+pub struct ColdChild {
+    pub stage: String,
+    pub index: u64,
+    pub count: u64,
+    pub keep: Option<Vec<u64>>,
+}
+
+/// Cases per cold-start process.
+pub const COLD_CASES: u64 = 64;
 
 /// Seconds without progress of one worker after which a stage is declared stalled (env VERIF_HANG_SECS).
 pub fn hang_secs() -> u64 {
@@ -662,6 +679,8 @@ impl Runner {
             journal: false,
             triage: false,
             replay_tape: None,
+            cold_child: None,
+            cold: std::env::var("VERIF_COLD").map(|v| v != "0").unwrap_or(true),
         }
     }
 
@@ -683,6 +702,9 @@ impl Runner {
     }
 
     fn skip(&self, name: &str) -> bool {
+        if let Some(cc) = &self.cold_child {
+            return cc.stage != name;
+        }
         if let Some((stage, _)) = &self.replay_tape {
             return stage != name;
         }
@@ -1028,6 +1050,9 @@ impl Runner {
         if self.skip(name) {
             return;
         }
+        if let Some(cc) = self.cold_child.clone() {
+            self.cold_child_run(name, &cc, tape_len, gen, judge);
+        }
         if self.replay.is_some() {
             return self.do_replay(name, judge);
         }
@@ -1203,7 +1228,239 @@ impl Runner {
         self.finish_stage(name, "random(proptest tape)", stage, None, t0);
         if let Some((c, f)) = first {
             self.record_violation(name, c, f, judge, pre);
+        } else if self.cold && self.violations.is_empty() && self.only.is_none() {
+            self.cold_parent(name);
         }
+    }
+
+    /// Cold-start child: the first cases of this stage, judged one after the other on the main thread of a process that
+    /// has made no other call into the code under test (no self-test, no saved cases, no other stage). Never returns.
+    fn cold_child_run<C: CaseIo>(&mut self, name: &'static str, cc: &ColdChild, tape_len: usize, gen: &(dyn Fn(&mut Tape) -> C + Sync), judge: &(dyn Fn(&C, &mut Stats) -> Verdict + Sync)) -> ! {
+        use std::io::Write;
+        let cfg = Config { failure_persistence: None, rng_seed: RngSeed::Fixed(mix(self.seed, self.prop, name, 1_000_000 + cc.index)), ..Config::default() };
+        let mut runner = TestRunner::new(cfg);
+        let strat = proptest::collection::vec(proptest::num::u32::ANY, tape_len);
+        let mut st = Stats::default();
+        let out = std::io::stdout();
+        for j in 0..cc.count {
+            let tape = match strat.new_tree(&mut runner) {
+                Ok(t) => t.current(),
+                Err(_) => break,
+            };
+            if let Some(k) = &cc.keep {
+                if !k.contains(&j) {
+                    continue;
+                }
+            }
+            {
+                let mut o = out.lock();
+                let _ = writeln!(o, "COLD-AT {}", j);
+                let _ = o.flush();
+            }
+            let c = gen(&mut Tape::new(&tape));
+            let r = match guard(|| judge(&c, &mut st)) {
+                Ok(r) => r,
+                Err(p) => Err(Fail::new("harness-panic", "", name, "judge returns", format!("judge panicked: {}", p))),
+            };
+            if let Err(f) = r {
+                if self.is_known(&f.sig) {
+                    continue;
+                }
+                let body = json!({"at": j, "sig": f.sig, "kind": f.kind, "entry": f.entry, "expected": f.expected, "observed": f.observed, "case": c.to_json()});
+                println!("COLD-FAIL {}", body);
+                std::process::exit(1);
+            }
+        }
+        println!("COLD-OK evals={} nontrivial={} discarded={}", st.evals, st.nontrivial.len() as u64 + st.nontrivial_counted, st.discarded);
+        std::process::exit(0);
+    }
+
+    fn cold_spawn(&self, name: &str, index: u64, keep: Option<&[u64]>) -> Option<std::process::Child> {
+        let exe = std::env::current_exe().ok()?;
+        let mut cmd = std::process::Command::new(exe);
+        cmd.arg(self.prop)
+            .arg("--tier")
+            .arg(if self.quick() { "quick" } else { "thorough" })
+            .arg("--cold-stage")
+            .arg(name)
+            .arg("--cold-index")
+            .arg(index.to_string())
+            .arg("--cold-count")
+            .arg(COLD_CASES.to_string());
+        if let Some(k) = keep {
+            cmd.arg("--cold-keep").arg(k.iter().map(|v| v.to_string()).collect::<Vec<_>>().join(","));
+        }
+        cmd.env("VERIF_DIR", &self.verif_dir)
+            .env("VERIF_SEED", (self.seed as i64).to_string())
+            .env("VERIF_WORKER", "1")
+            .stdout(std::process::Stdio::piped())
+            .stderr(std::process::Stdio::null())
+            .spawn()
+            .ok()
+    }
+
+    /// Waits for a cold-start child: (exit code or None for a signal / a kill after the deadline, stdout, timed out).
+    fn cold_wait(child: std::process::Child) -> (Option<i32>, String, bool) {
+        use std::io::Read;
+        let mut child = child;
+        let limit = hang_secs();
+        let mut so = child.stdout.take();
+        let reader = std::thread::spawn(move || {
+            let mut s = String::new();
+            if let Some(o) = so.as_mut() {
+                let _ = o.read_to_string(&mut s);
+            }
+            s
+        });
+        let t0 = Instant::now();
+        let mut timed_out = false;
+        let code = loop {
+            match child.try_wait() {
+                Ok(Some(status)) => break status.code(),
+                Ok(None) => {
+                    if t0.elapsed().as_secs() >= limit {
+                        let _ = child.kill();
+                        let _ = child.wait();
+                        timed_out = true;
+                        break None;
+                    }
+                    std::thread::sleep(std::time::Duration::from_millis(2));
+                }
+                Err(_) => break Some(2),
+            }
+        };
+        (code, reader.join().unwrap_or_default(), timed_out)
+    }
+
+    /// What one finished cold-start child says: Ok((evals, nontrivial, discarded)) or Err((position, sig, fail, case json)).
+    fn cold_outcome(&self, name: &str, code: Option<i32>, out: &str, timed_out: bool) -> Result<(u64, u64, u64), Option<(u64, Fail, Value)>> {
+        let last_at = out.lines().rev().find_map(|l| l.strip_prefix("COLD-AT ").and_then(|v| v.trim().parse::<u64>().ok()));
+        match code {
+            Some(0) => {
+                let mut nums = (0u64, 0u64, 0u64);
+                if let Some(l) = out.lines().rev().find(|l| l.starts_with("COLD-OK")) {
+                    for w in l.split_whitespace() {
+                        if let Some(v) = w.strip_prefix("evals=") {
+                            nums.0 = v.parse().unwrap_or(0);
+                        } else if let Some(v) = w.strip_prefix("nontrivial=") {
+                            nums.1 = v.parse().unwrap_or(0);
+                        } else if let Some(v) = w.strip_prefix("discarded=") {
+                            nums.2 = v.parse().unwrap_or(0);
+                        }
+                    }
+                }
+                Ok(nums)
+            }
+            Some(1) => {
+                let body = out.lines().rev().find_map(|l| l.strip_prefix("COLD-FAIL ")).and_then(|b| serde_json::from_str::<Value>(b).ok());
+                match body {
+                    Some(b) => {
+                        let mut f = Fail::new(b["kind"].as_str().unwrap_or(""), "", b["entry"].as_str().unwrap_or(""), b["expected"].as_str().unwrap_or(""), b["observed"].as_str().unwrap_or(""));
+                        f.sig = b["sig"].as_str().unwrap_or("").to_string();
+                        Err(Some((b["at"].as_u64().unwrap_or(0), f, b["case"].clone())))
+                    }
+                    None => Err(None),
+                }
+            }
+            None => {
+                // died on a signal, or had to be killed after the deadline: the code under test crashed or hangs on the
+                // case announced last
+                let kind = if timed_out { "hang" } else { "crash" };
+                let f = Fail::new(format!("{}:{}", kind, name), "", "the calls this check makes on the generated cases, in a fresh process", "returns normally", if timed_out { format!("no result after {} s", hang_secs()) } else { "the process died (stack overflow, abort or fatal signal)".to_string() });
+                Err(Some((last_at.unwrap_or(0), f, json!({"cold_start_position": last_at}))))
+            }
+            Some(_) => Err(None),
+        }
+    }
+
+    /// Cold-start runs of the stage that has just finished: a few fresh processes each judge the first cases of their own
+    /// stream, so that state the code under test builds up early in a process (a table filled by the first N calls, a
+    /// value latched from the first input, a lazily initialised static) is met while it is still being built. A failure
+    /// is replayed by re-running the same prefix in another fresh process; the prefix is minimised first.
+    fn cold_parent(&mut self, name: &'static str) {
+        let t0 = Instant::now();
+        let nproc: u64 = if self.quick() { 16 } else { 64 };
+        let mut stage = Stats::default();
+        let mut failure: Option<(u64, u64, Fail, Value)> = None;
+        let mut idx = 0u64;
+        while idx < nproc && failure.is_none() {
+            let batch: Vec<(u64, std::process::Child)> = (idx..(idx + THREADS as u64).min(nproc)).filter_map(|i| self.cold_spawn(name, i, None).map(|c| (i, c))).collect();
+            idx += THREADS as u64;
+            for (i, child) in batch {
+                let (code, out, timed_out) = Self::cold_wait(child);
+                match self.cold_outcome(name, code, &out, timed_out) {
+                    Ok((e, n, d)) => {
+                        stage.evals += e;
+                        stage.nontrivial_counted += n;
+                        stage.discarded += d;
+                        stage.class("cold-start-process");
+                    }
+                    Err(Some((at, f, case))) => {
+                        if failure.is_none() && !self.is_known(&f.sig) {
+                            failure = Some((i, at, f, case));
+                        }
+                    }
+                    Err(None) => self.inconclusive.push(format!("cold-start process {} of stage {} ended with exit code {:?} and no verdict", i, name, code)),
+                }
+            }
+        }
+        let label = format!("{}#cold", name);
+        // the children's discards were already accounted for by the stage proper
+        stage.discarded = 0;
+        self.finish_stage(&label, "random(proptest tape), first cases in fresh processes", stage, None, t0);
+        let (index, at, fail, case) = match failure {
+            Some(x) => x,
+            None => return,
+        };
+        // minimise the history: which of the earlier cases does the failure need?
+        let same = |this: &Self, keep: &[u64]| -> bool {
+            match this.cold_spawn(name, index, Some(keep)) {
+                Some(child) => {
+                    let (code, out, timed_out) = Self::cold_wait(child);
+                    matches!(this.cold_outcome(name, code, &out, timed_out), Err(Some((a, f, _))) if f.sig == fail.sig && (a == at || code.is_none()))
+                }
+                None => false,
+            }
+        };
+        let mut keep: Vec<u64> = (0..=at).collect();
+        if same(self, &[at]) {
+            keep = vec![at];
+        } else if same(self, &keep) {
+            let mut chunk = (keep.len() - 1 + 1) / 2;
+            while chunk >= 1 && keep.len() > 1 {
+                let mut start = 0usize;
+                let mut removed_any = false;
+                while start < keep.len() - 1 {
+                    let end = (start + chunk).min(keep.len() - 1);
+                    let cand: Vec<u64> = keep[..start].iter().chain(keep[end..].iter()).cloned().collect();
+                    if same(self, &cand) {
+                        keep = cand;
+                        removed_any = true;
+                    } else {
+                        start = end;
+                    }
+                }
+                if chunk == 1 && !removed_any {
+                    break;
+                }
+                chunk = if chunk == 1 { if removed_any { 1 } else { 0 } } else { (chunk + 1) / 2 };
+                if chunk == 0 {
+                    break;
+                }
+            }
+        }
+        let dir = format!("{}/replays", self.verif_dir);
+        let _ = std::fs::create_dir_all(&dir);
+        let body = json!({
+            "property": self.prop, "check": name, "sig": fail.sig, "entry_point": fail.entry, "expected": fail.expected, "observed": fail.observed,
+            "seed": self.seed, "tier": if self.quick() {"quick"} else {"thorough"}, "found_by": "cold-start run (fresh process)",
+            "history_note": "the failure shows in a process that has made no other call into the library; the replay re-runs the listed positions of the same case stream in a fresh process",
+            "cold": {"stage": name, "index": index, "count": COLD_CASES, "keep": keep},
+            "case": case,
+        });
+        let path = format!("{}/{}-{}-cold-{:016x}.json", dir, self.prop, name.replace('.', "_"), hash_str(&body.to_string()));
+        let _ = std::fs::write(&path, serde_json::to_string_pretty(&body).unwrap());
+        self.violations.push(Violation { stage: name.to_string(), fail, case, replay_path: path });
     }
 
     /// Bulk stage: `work(shard, nshards, stats)` enumerates its slice of a space with plain loops
